@@ -123,7 +123,25 @@ if "C10" in which:
         ("c10_refuted_q_liq_ceil_precedence", "c10_refuted_q_liq_ceil_precedence", "Refuted for the code as it was (total_sold / price.ceil() instead of (total_sold / price).ceil()): bid 10.5, 105 to raise — it sold 105/11 shares worth 100.2 and reported success."),
     ])
 
+IMPE11 = """From Coq Require Import ZArith NArith List Bool String Sorted.
+From Alator Require Import Model.Num Model.Quirks Model.Cost Model.Exchange Model.Uist Model.Server Model.Broker
+  Model.Perf Model.Strategy Proofs.ServerProofs Proofs.EndToEnd11.
+Import ListNotations."""
 if "C11" in which:
+    gen("C11quotes", "C11, first sentence, as theorems about the composition strategy + broker + eager client + Uist "
+        "server + Uist exchange (Model/Strategy.v) for EVERY number type: which quote the broker holds. `latest_upto d "
+        "j s` is the quote for s in the row of the latest date index <= j that quotes s (written independently of the "
+        "broker); `shown_index d k` the date index the clock shows after k ticks. Statements only; all closed under "
+        "the global context.", IMPE11, [
+        ("c11q_update", "sys_update_quotes_at", "One update (tick, fetch_quotes, reconcile, rebalance, snapshot): if every stored quote is the most recent one up to the clock, it still is afterwards — one tick later.", True),
+        ("c11q_run", "sys_run_quotes_final", "Through run(): after the loop every stored quote is the most recent one up to the last date.", True),
+        ("c11q_after_updates", "c11_quotes_after_updates", "END TO END from a fresh start (the broker stores the first date's row as UistBrokerBuilder::build does), init, then any number of updates: for every symbol the stored quote is latest_upto at the index the clock shows — a gap keeps the previous quote.", True),
+        ("c11q_valuation", "position_value_current", "… hence a position is valued at quantity x the bid of that quote.", True),
+        ("c11q_never_later", "stored_quote_not_later", "Never a later one: with increasing dates and rows carrying their own date, a stored quote is dated at or before the clock.", True),
+        ("c11q_most_recent", "latest_upto_most_recent", "The most recent: no quoting row between the one used and the clock is skipped.", True),
+        ("c11q_latest_spec", "latest_upto_spec", "latest_upto characterised: the quote of row i, i <= j, with no row in (i, j] quoting the symbol.", True),
+        ("c11q_update_quotes", "update_quotes_sget", "What storing a fetched row does to the broker's quote map (rows keyed uniquely — proved of every Penelope dataset, c07_dataset_invariant).", True),
+    ])
     gen("C11", "C11 — valuation uses the last seen bid and satisfies the portfolio identities. Statements only.", IMPB, [
         ("c11_position_value", "position_value_spec", "A position is valued at quantity x the bid of the last seen quote of its symbol."),
         ("c11_total", "total_value_sum", "[R] total value = cash + sum of position values …"),
